@@ -301,6 +301,27 @@ func (c *Ctx) Solve(timeoutMs int, par int, crossCheck bool) {
 			}
 		}
 	}
+	// Second retry: at most two obligations that are still undecided get twelve times the
+	// budget (observed once: an automatic range-counter obligation of a large unit timed out
+	// twice while two other checks were saturating the machine).
+	again := 0
+	for _, o := range c.Obls {
+		if o.Status != "unknown" || o.Vacuity || o.KnownClass != "" || again >= 2 || strings.HasPrefix(o.Output, "solver disagreement") {
+			continue
+		}
+		again++
+		r := runSolvers(c.Query(o, true), 12*timeoutMs, false, solvers)
+		if r.status == "unsat" || r.status == "sat" {
+			o.Status, o.Solver, o.Ms = r.status, r.solver+" (second retry)", r.ms
+			o.Candidate = false
+			if r.status == "sat" {
+				o.Model = parseModel(r.out)
+				o.Output = truncate(r.out, 4000)
+			} else {
+				o.Output = ""
+			}
+		}
+	}
 }
 
 // QuickUnsat: is the formula unsatisfiable under the assumptions logged so far?
